@@ -137,7 +137,8 @@ def check(prop: str, tier: str, seed: int, runs: int | None, budget_s: float | N
     for f in findings:
         path = os.path.join(VERIF, f["reproducer"])
         rep = json.load(open(path))
-        recs = exec_case_file(prop, path, rep.get("hash_seed", 0), extra_env)
+        hs0 = rep.get("hash_seed", 0) if isinstance(rep, dict) else (rep[0].get("hash_seed", 0) if rep else 0)
+        recs = exec_case_file(prop, path, hs0, extra_env)
         for r in recs:
             if "harness_error" in r:
                 raise HarnessError(f"reproducer {path}: {r['harness_error']}\n{r.get('tb','')}")
@@ -244,6 +245,12 @@ def check(prop: str, tier: str, seed: int, runs: int | None, budget_s: float | N
     replay_paths = []
     if new:
         new.sort(key=lambda it: it["r"])
+        counts: dict[str, int] = {}
+        for it in new:
+            k = core.canon(it["v"]["key"])
+            counts[k] = counts.get(k, 0) + 1
+        for k, c in sorted(counts.items(), key=lambda kv: -kv[1]):
+            log(f"  unexplained violation key x{c}: {k}")
         # one replay per distinct violation key (at most 3), smallest run id first
         seen_keys = set()
         for it in new:
@@ -251,7 +258,7 @@ def check(prop: str, tier: str, seed: int, runs: int | None, budget_s: float | N
             if k in seen_keys:
                 continue
             seen_keys.add(k)
-            if len(seen_keys) > 3:
+            if len(seen_keys) > int(os.environ.get("VERIF_MAX_REPORTS", "3")):
                 break
             path = report_violation(prop, seed, it, extra_env, findings)
             replay_paths.append(path)
